@@ -127,6 +127,12 @@ Technique (numbers: RULES_GUIDE "What counts as static here", ALLOWED 1-6)
   R8  1 (reader / renderer by role, resolved callees, argument binding) + 3 (def-use / may-alias value flow over names and
       dotted paths, flow-insensitive fixpoint per function, summaries of package callees per abstract argument kinds);
       the abstract domain has three values (part of the tree / fresh collection of parts / profile holding a tree).
+
+R12  (round 8, seeded C10o) keyword literals are matched case-sensitively: every string terminal that occurs filtered-out in a
+     production and contains a cased character has no `i` flag - the parser does not keep the token and the reconstructor writes
+     the grammar's spelling, so a case-insensitive keyword accepts sources whose keyword sequence the regenerated text does not
+     reproduce although the re-parsed tree is identical.  Technique: query over the terminal table and the productions of the
+     compiled grammar (lark as loader), one obligation per keyword literal, instance floor 137.
 """
 
 from __future__ import annotations
@@ -229,6 +235,7 @@ def run(ctx):
     r10(ctx, g)
     r11(ctx, g)
     r8(ctx, g)
+    r12(ctx, g)
     # the STRING terminal decides where a literal ends: its regex structure (C12.R4) is a necessary condition for every
     # valid profile to lex into the tokens written
     from rules import c12
@@ -4098,3 +4105,40 @@ def r8(ctx, g=None):
         if res[1]:
             emit(f, "parsed tree is not modified", res, "")
     ctx.rep.count("tree_flow_functions", n, floor=2)
+
+
+# ============================================================================================================= R12
+def r12(ctx, g: Grammar):
+    """Keyword literals are matched case-sensitively.  A keyword of a statement is an anonymous string terminal that the parser
+    filters out of the tree (lemma in the trusted base: filtered-out terminals are not stored), and the Reconstructor writes it back
+    in the spelling of the *grammar*.  A terminal declared case-insensitive (`"CN"i`) accepts sources in another spelling
+    (`set cn ".."`) whose keyword token the regenerated text does not reproduce (`set CN ".."`), while the re-parsed tree is
+    identical - "the same sequence of keywords ... as the source" fails for accepted profiles (round 8, seeded C10o).  Decided on the
+    terminal table of the compiled grammar: every string terminal that occurs filtered-out in some production and contains a cased
+    character has no `i` flag.  Kept terminals are tokens of the tree and are written back as they were read; regex terminals are not
+    subjects (a filtered-out regex terminal is undecided)."""
+    filtered = {}
+    for r in g.rules:
+        for sy in r.expansion:
+            if sy.is_term and sy.filter_out:
+                filtered.setdefault(sy.name, r)
+    n = 0
+    for t in g.lark.terminals:
+        if t.name not in filtered:
+            continue
+        pat = t.pattern
+        flags = set(getattr(pat, "flags", ()) or ())
+        if type(pat).__name__ != "PatternStr":
+            continue
+        if pat.value.lower() == pat.value.upper():
+            continue  # punctuation: nothing to spell differently
+        n += 1
+        ok = "i" not in flags
+        r = filtered[t.name]
+        ctx.rep.ob("R12", "GRAM", f"c2profile.lark::keyword {pat.value!r}", ok,
+                   (f"keyword literal {pat.value!r} (terminal {t.name}, e.g. in `{r.tree_name}`) is matched case-sensitively: the only accepted spelling is the one the reconstructor writes"
+                    if ok else
+                    f"keyword literal {pat.value!r} (terminal {t.name}, e.g. in `{r.tree_name}`) is case-insensitive: a source spelling it as {pat.value.swapcase()!r} is accepted, the token is not "
+                    f"kept in the tree and the regenerated text has {pat.value!r} - the keyword sequence of the source is not reproduced"),
+                   "dissect/cobaltstrike/c2profile.lark", 0)
+    ctx.rep.count("keyword_literals", n, floor=137)
